@@ -46,7 +46,7 @@ impl Prop for C05 {
         "C05"
     }
     fn rule(&self) -> String {
-        "cases = C03-style conversations where every request (incl. the handshake response) carries a generated start sequence id (0 / 1 mostly, else uniform 0-255, with 254/255 favoured) and some programs produce 256-1100 response packets (hundreds of rows, or a 300-1000 column header); 1 conversation in 1500 contains a row of 17-70 MB laid out against the packet boundaries (cells of 1x, 2x, 3x the packet size, several of them per row, small cells in between), in either protocol; enumerated multi-fragment (>= 2^24-1 byte) requests so that the *last* request id matters. Oracle: greeting id 0; every reply's packets are last_request_id+1+i mod 256. Non-trivial = some response has > 255 packets, or some request id != 0, or a multi-fragment request, or a response message of 2^24-1 bytes or more (enumerated: a 16 MiB cell between ordinary rows, request ids 0 and 250).".into()
+        "cases = C03-style conversations where every request (incl. the handshake response) carries a generated start sequence id (0 / 1 mostly, else uniform 0-255, with 254/255 favoured) and some programs produce 256-1100 response packets (hundreds of rows, or a 300-1000 column header; enumerated: 65536 and more rows); 1 conversation in 1500 contains a row of 17-70 MB laid out against the packet boundaries (cells of 1x, 2x, 3x the packet size, several of them per row, small cells in between), in either protocol; enumerated multi-fragment (>= 2^24-1 byte) requests so that the *last* request id matters. Oracle: greeting id 0; every reply's packets are last_request_id+1+i mod 256. Non-trivial = some response has > 255 packets, or some request id != 0, or a multi-fragment request, or a response message of 2^24-1 bytes or more (enumerated: a 16 MiB cell between ordinary rows, request ids 0 and 250).".into()
     }
     fn assumptions(&self) -> Vec<String> {
         vec!["requests whose own fragments would wrap past id 255 are outside the domain (C20 covers them)".into()]
@@ -145,6 +145,17 @@ impl Prop for C05 {
                 conv.sched = crate::transport::Schedule::fixed(1 << 22);
                 v.push(Case { conv });
             }
+        }
+        // responses of more than 2^16 packets (the 8-bit id wraps hundreds of times)
+        for (i, &n) in [65_533usize, 65_536, 66_000].iter().enumerate() {
+            if tier == Tier::Quick && i == 2 {
+                continue;
+            }
+            let rows: Vec<RowProg> = (0..n).map(|r| RowProg { cells: vec![Val::plain(Base::I32(r as i32))], form: RowForm::WriteRow, offers: vec![] }).collect();
+            let prog = Program { steps: vec![Step::Set { cols: vec![ColSpec::simple("a", T_LONG, 0)], rows, end: SetEnd::Finish }] };
+            let mut conv = Conversation::new(vec![Cmd::Query { text: Blob::text("many") }, Cmd::Ping], vec![Action::Result(prog)]);
+            conv.cmds[0].seq = [0u8, 201, 255][i];
+            v.push(Case { conv });
         }
         // a user-defined value type that flushes the writer it is handed (first cell of text rows):
         // nothing is buffered at that point, so the flush must not disturb the numbering
